@@ -4,7 +4,9 @@ mod est;
 mod fy;
 mod invhash;
 mod mle;
+mod ord;
 mod pmh;
+mod purity;
 mod sk;
 mod tracker;
 mod util;
@@ -23,6 +25,9 @@ fn main() {
         "est-cases" => est::cases(rest),
         "pmh-cases" => pmh::cases(rest),
         "sk-cases" => sk::cases(rest),
+        "purity" => purity::run(rest),
+        "ord-cases" => ord::cases(rest),
+        "ord-props" => ord::props(rest),
         "sk-props" => sk::props(rest),
         "pmh-props" => pmh::props(rest),
         "pmh-props-replay" => pmh::props_replay(rest),
